@@ -864,7 +864,11 @@ fn stress_case(env: &mut Env, srt: &tokio::runtime::Runtime, rng: &mut Rng, idx:
     let k = rng.range(2, 4) as usize;
     let m = rng.range(1, 40) as usize;
     let with_drain = rng.chance(3, 4);
-    let with_stop = rng.chance(1, 8);
+    // round 4: one case in four races stoppers with distinct reasons (and sometimes a killer) with the
+    // senders and the drainer; every caller's result is recorded
+    let stoppers: u64 = if rng.chance(1, 4) { rng.range(1, 3) } else { 0 };
+    let with_kill = stoppers > 0 && rng.chance(1, 3);
+    let with_stop = stoppers > 0 || with_kill;
     let resend_every = rng.range(0, 6);
     let delay = rng.range(0, 30) * rng.range(0, 1500);
     let handled = Arc::new(Mutex::new(Vec::new()));
@@ -886,7 +890,8 @@ fn stress_case(env: &mut Env, srt: &tokio::runtime::Runtime, rng: &mut Rng, idx:
     let cell = aref.get_cell();
     let recs: Arc<Mutex<Vec<(u64, String, u64, u64)>>> = Arc::new(Mutex::new(Vec::new()));
     let mut joins = Vec::new();
-    let start = Arc::new(std::sync::Barrier::new(k + usize::from(with_drain) + usize::from(with_stop)));
+    let start = Arc::new(std::sync::Barrier::new(k + usize::from(with_drain) + stoppers as usize + usize::from(with_kill)));
+    let calls: Arc<Mutex<Vec<String>>> = Arc::new(Mutex::new(Vec::new()));
     for _ in 0..k {
         let aref = aref.clone();
         let sh = shared.clone();
@@ -930,15 +935,32 @@ fn stress_case(env: &mut Env, srt: &tokio::runtime::Runtime, rng: &mut Rng, idx:
             *dr.lock().unwrap() = Some((t0, t1));
         }));
     }
-    if with_stop {
+    for n in 1..=stoppers {
         let cell = cell.clone();
         let start = start.clone();
+        let calls = calls.clone();
+        let spin = delay * rng.range(0, 4);
         joins.push(std::thread::spawn(move || {
             start.wait();
-            for _ in 0..(delay * 3) {
+            for _ in 0..spin {
                 std::hint::spin_loop();
             }
-            cell.stop(None);
+            let ok = cell.verif_stop(Some(format!("r{n}")));
+            calls.lock().unwrap().push(format!("stop:{n}:{}", if ok { "ok" } else { "refused" }));
+        }));
+    }
+    if with_kill {
+        let cell = cell.clone();
+        let start = start.clone();
+        let calls = calls.clone();
+        let spin = delay * rng.range(0, 4);
+        joins.push(std::thread::spawn(move || {
+            start.wait();
+            for _ in 0..spin {
+                std::hint::spin_loop();
+            }
+            let ok = cell.verif_kill();
+            calls.lock().unwrap().push(format!("kill:-:{}", if ok { "ok" } else { "refused" }));
         }));
     }
     for j in joins {
@@ -974,8 +996,12 @@ fn stress_case(env: &mut Env, srt: &tokio::runtime::Runtime, rng: &mut Rng, idx:
         all.iter().map(|(id, r, t0, t1)| format!("{id}:{r}:{t0}:{t1}")).collect::<Vec<_>>().join(",")
     };
     let drain = drain_rec.lock().unwrap().map_or("-".to_string(), |(a, b)| format!("{a}:{b}"));
+    let calls_s = {
+        let c = calls.lock().unwrap();
+        if c.is_empty() { "-".to_string() } else { c.join(",") }
+    };
     let obs = format!(
-        "sends={sends} handled={} drain={drain} sup={} exited={}",
+        "sends={sends} handled={} drain={drain} sup={} exited={} calls={calls_s}",
         show_ids(&handled.lock().unwrap()),
         events.lock().unwrap().join(","),
         exited as u8
